@@ -212,6 +212,10 @@ func streamCancel(o *Out, r *rand.Rand, n int, thorough bool) {
 	for i := 0; i < n; i++ {
 		g := gen.NewProg(r)
 		src := g.Program(1+r.Intn(4), 1+r.Intn(3))
+		if o.Skipped(i, src) {
+			continue
+		}
+		o.Current(i, src)
 		base, ok := runK(src, -1, "none")
 		if !ok || base.hung {
 			continue
